@@ -590,7 +590,7 @@ func GenValue(r *core.Rand, lookup func(string) *m.Item, t *m.Type, depth int, n
 		}
 		return &m.Value{Kind: m.VInt, Raw: r.Pick("0", "3", "-2")}
 	case "String":
-		return &m.Value{Kind: m.VString, Raw: r.Pick("", "a", "hello world", "x\"y", "é")}
+		return &m.Value{Kind: m.VString, Raw: r.Pick("", "a", "hello world", "x\"y", "é", "usage:\n  first\n  second", "a\n\tb\n\tc", "ends in a backslash\\", "two\nlines", "  indented first line\nrest")}
 	case "Boolean":
 		return &m.Value{Kind: m.VBool, Raw: r.Pick("true", "false")}
 	case "ID":
